@@ -16,7 +16,8 @@ EXPLANATION = (
     'compute_outside_probabilities); the chart is first-pop-wins per (span, category) in 1-best mode; '
     'failure is reported only when the goal cell is empty; both shipped grammars are head-uniform. With '
     'the pencil proof of DESIGN.md section 6 these clauses give non-increasing pop priorities for all '
-    'inputs. Decides the code shape, not float rounding or the step budget.')
+    'inputs. Decides the code shape, not float rounding or the step budget.'
+    " Third round: the span rule of unary steps, the sort of the goal cell and 'every accepted chart entry is expanded unconditionally' (R1.5) are checked here too: the best derivation must be reachable and handed out first.")
 TRUSTED = ['clang-14 front end (-fsyntax-only, JSON AST)', 'CPython ast', 'rule table in DESIGN.md sections 2/C01 and 6']
 
 
@@ -66,7 +67,12 @@ def check(repo, rep, tier):
     rc.r_outside_fn(m, rep, 'R1.2c')
     rc.r_chart(m, rep, 'R1.3')
     rc.r_search_loop(m, rep, 'R1.3')
+    rc.r_expansion_unconditional(m, rep, 'R1.5')   # every accepted entry is expanded: no derivation is left out of the search
     rc.r_heads(m, rep, 'R1.2')
+    rep.rule('R1.5', 'every derivation is reachable and the best is handed out first: unary steps allowed below the full span '
+                     'and for one-word sentences; the goal cell is sorted by score before results are emitted')
+    rc.r_guards(m, rep, 'R1.5')
+    rc.r_nbest(m, rep, 'R1.5')
     rc.r_items_immutable(m, rep, 'R1.2')
     head_uniformity(repo, rep)
     from .. import rules_pyx as rp
